@@ -8,7 +8,8 @@ for id in "$@"; do
     src=/tmp/$tag-$id/_seeded/$k
     [ -f $src/patch.diff ] || continue
     n=$((k+base)); mkdir -p seeded/$id-$n
-    find $src -name "*_test.go" -exec cp {} seeded/$id-$n/ ; ; cp $src/patch.diff $src/DEMO_PATH.txt $src/README.md seeded/$id-$n/ 2>/dev/null
+    find $src -name "*_test.go" -exec cp {} seeded/$id-$n/ \;
+    cp $src/patch.diff $src/DEMO_PATH.txt $src/README.md seeded/$id-$n/ 2>/dev/null
     sed -i 's/^NOTE/# NOTE/' seeded/$id-$n/DEMO_PATH.txt
     echo "$id-$n"
   done
